@@ -4,6 +4,7 @@ import (
 	"go/ast"
 	"go/token"
 	"go/types"
+	"strings"
 
 	"verif/mlbcheck/chk"
 )
@@ -25,6 +26,9 @@ func init() {
 			"(environmental, noted in DESIGN.md); timing of the spam loop.",
 		Run: runC13,
 		Mutants: []Mutant{
+			{Name: "group-counter-read-by-address", File: "internal/layer2/ndp.go",
+				Old: "\tn.solicitedNodeGroups[group.String()]--\n\tif n.solicitedNodeGroups[group.String()] == 0 {",
+				New: "\tn.solicitedNodeGroups[group.String()]--\n\tif n.solicitedNodeGroups[ip.String()] == 0 {", Expect: "GROUP-REFCOUNT"},
 			{Name: "shared-address-exit-before-removal", File: "internal/layer2/announcer.go",
 				Old: "\t\tif len(advs) == 1 {\n\t\t\tdelete(a.ips, name)", New: "\t\tif a.ipRefcnt[cur.ip.String()] > 1 {\n\t\t\ta.ipRefcnt[cur.ip.String()]--\n\t\t\treturn true\n\t\t}\n\t\tif len(advs) == 1 {\n\t\t\tdelete(a.ips, name)", Expect: "REFCOUNT"},
 			{Name: "answer-arp-replies-too", File: "internal/layer2/arp.go",
@@ -59,6 +63,7 @@ func runC13(p *chk.Prog, r *chk.Report) {
 	c13Verdict(p, r)
 	c13Refcount(p, r)
 	c13Gratuitous(p, r)
+	c13Groups(p, r)
 	x := r.Rule("LOCK-GUARDED", "C locks (must-hold lockset dataflow)", "every access to Announce.{nodeInterfaces,arps,ndps,ips,ipRefcnt} and ndpResponder.solicitedNodeGroups is made with Announce's RWMutex held (write mode for writes)", 25)
 	guardedRule(x, p, []guardRow{guardTable[2], guardTable[3]})
 	y := r.Rule("LOCK-NOBLOCK", "C locks (defers in LIFO order)", "Announce.doSpam (the only sender on spamCh) never executes while the announcer lock is held; gratuitous(), which takes the lock itself, is never entered with it held", 3)
@@ -98,10 +103,62 @@ func c13Reply(p *chk.Prog, r *chk.Report) {
 	if n != nil {
 		g := n.Graph()
 		advs := g.FindPat("RECV.advertise(SRC, NS.TargetAddress, false)", chk.H("RECV", isRecv(n)))
-		x.Check("ndp:advertise-site", n.Pos(), len(advs) == 1, "", "expected one solicited advertise(src, target, false)")
+		nsOf, dstOf := map[ast.Node]ast.Expr{}, map[ast.Node]ast.Expr{}
 		for _, s := range advs {
 			call := s.Node.(*ast.CallExpr)
-			ns := call.Args[1].(*ast.SelectorExpr).X
+			nsOf[s.Node], dstOf[s.Node] = call.Args[1].(*ast.SelectorExpr).X, call.Args[0]
+		}
+		if len(advs) == 0 {
+			// the solicited advertisement built and written in place (the sending helper specialised and expanded):
+			// conn.WriteTo(m, nil, dst) of a NeighborAdvertisement for NS.TargetAddress marked Solicited and not Override
+			for _, s := range g.FindPat("RECV.conn.WriteTo(M, nil, DST)", chk.H("RECV", isRecv(n))) {
+				call := s.Node.(*ast.CallExpr)
+				lit := throughLocals(g, call.Args[0])
+				if u, isU := ast.Unparen(lit).(*ast.UnaryExpr); isU && u.Op == token.AND {
+					lit = u.X
+				}
+				cl, isCl := ast.Unparen(lit).(*ast.CompositeLit)
+				if !isCl || !strings.HasSuffix(types.TypeString(n.Info().TypeOf(cl), nil), "ndp.NeighborAdvertisement") {
+					continue
+				}
+				var ns ast.Expr
+				solicited, override := false, false
+				for _, el := range cl.Elts {
+					kv, isKV := el.(*ast.KeyValueExpr)
+					if !isKV {
+						continue
+					}
+					switch kv.Key.(*ast.Ident).Name {
+					case "TargetAddress":
+						if sel, isSel := ast.Unparen(kv.Value).(*ast.SelectorExpr); isSel && sel.Sel.Name == "TargetAddress" {
+							ns = sel.X
+						}
+					case "Solicited":
+						solicited = n.IsConstBool(kv.Value, true)
+					case "Override":
+						override = !n.IsConstBool(kv.Value, false)
+					}
+				}
+				// fields set after the literal, before the write
+				if mid, isId := ast.Unparen(call.Args[0]).(*ast.Ident); isId {
+					for _, d := range assignsToField(n, n.ObjOf(mid)) {
+						switch d.field {
+						case "Solicited":
+							solicited = n.IsConstBool(d.value, true)
+						case "Override":
+							override = !n.IsConstBool(d.value, false)
+						}
+					}
+				}
+				if ns != nil && solicited && !override {
+					nsOf[s.Node], dstOf[s.Node] = ns, call.Args[2]
+					advs = append(advs, s)
+				}
+			}
+		}
+		x.Check("ndp:advertise-site", n.Pos(), len(advs) == 1, "", "expected one solicited advertise(src, target, false)")
+		for _, s := range advs {
+			ns := nsOf[s.Node]
 			same := func(e ast.Expr) bool { return n.SameExpr(e, ns) }
 			verdict := definedBy(g, "RECV.announce(NS.TargetAddress, RECV.intf)", chk.H("NS", same))
 			x.Check("ndp:reply:only-solicitations", s.Pos(), definedBy(g, "MSG.(*ndp.NeighborSolicitation)")(ns) && g.Dominated(s, chk.GBool(true, func(e ast.Expr) bool {
@@ -118,7 +175,7 @@ func c13Reply(p *chk.Prog, r *chk.Report) {
 				return t != nil && t.String() == "net.HardwareAddr"
 			}))), "", "a solicitation without a source link-layer address option can be answered")
 			x.Check("ndp:reply:announcer-verdict", s.Pos(), g.Dominated(s, g.GPat(false, "V != dropReasonNone", chk.H("V", verdict))), "", "a solicitation can be answered although the announcer did not say dropReasonNone for that address on this interface")
-			x.Check("ndp:reply:to-the-solicitor", s.Pos(), definedBy(g, "RECV.conn.ReadFrom()")(call.Args[0]), "", "the advertisement is not sent to the solicitor")
+			x.Check("ndp:reply:to-the-solicitor", s.Pos(), definedBy(g, "RECV.conn.ReadFrom()")(dstOf[s.Node]), "", "the advertisement is not sent to the solicitor")
 		}
 	}
 }
@@ -494,4 +551,46 @@ func c13CounterSteps(f *chk.Fn, g *chk.Graph, dir token.Token) []chk.Site {
 		}
 		return false
 	})
+}
+
+// c13Groups: the solicited-node multicast group of an address is joined while at least one announced address needs it
+// and left only when the last one is gone: the per-group counter is read and written under one key, the group's own
+// string - never the address's (addresses with the same low 24 bits share a group).
+func c13Groups(p *chk.Prog, r *chk.Report) {
+	x := r.Rule("GROUP-REFCOUNT", "B path", "in ndpResponder.Watch / Unwatch every index of solicitedNodeGroups is G.String() for G = ndp.SolicitedNodeMulticast(ip); JoinGroup(G) is called behind counter == 0 before the increment, LeaveGroup(G) behind counter == 0 after the decrement", 4)
+	for _, name := range []string{"Watch", "Unwatch"} {
+		f := need(x, p, "internal/layer2", "ndpResponder", name)
+		if f == nil {
+			continue
+		}
+		g := f.Graph()
+		grp := definedByIdx(g, f, "ndp.SolicitedNodeMulticast(IP)", 0, chk.H("IP", isParamIdx(f, 0)))
+		okKeys, n := true, 0
+		ast.Inspect(f.Body, func(nd ast.Node) bool {
+			ix, ok := nd.(*ast.IndexExpr)
+			if !ok || f.MatchNew("RECV.solicitedNodeGroups", ix.X) == nil {
+				return true
+			}
+			n++
+			if f.MatchWith("G.String()", throughLocals(g, ix.Index), chk.H("G", grp)) == nil {
+				okKeys = false
+			}
+			return true
+		})
+		x.Check(name+":counter-keyed-by-the-group", f.Pos(), okKeys && n >= 2, "", "the per-group counter is indexed by something other than the group's own string (the address, say): the group is left while another announced address still needs it, and solicitations for that address are no longer received")
+		op := "JoinGroup"
+		if name == "Unwatch" {
+			op = "LeaveGroup"
+		}
+		calls := g.FindPat("RECV.conn."+op+"(G)", chk.H("G", grp))
+		okCall := len(calls) == 1
+		for _, c := range calls {
+			// the counter read in place, or through a local that holds it (after the decrement in Unwatch)
+			cnt := func(e ast.Expr) bool {
+				return definedBy(g, "RECV.solicitedNodeGroups[K]")(e) || definedBy(g, "RECV.solicitedNodeGroups[K] - 1")(e)
+			}
+			okCall = okCall && g.Dominated(c, chk.GSame(g.GPat(true, "RECV.solicitedNodeGroups[K] == 0"), g.GPat(true, "W == 0", chk.H("W", cnt))))
+		}
+		x.Check(name+":"+op+"-at-zero", f.Pos(), okCall, "", op+" is not called exactly when the group's counter is zero")
+	}
 }
